@@ -449,7 +449,9 @@ def x_ds_write(w, s):
     try:
         kw = dict(_fmt(w, s))
         kw.update(spec.get("nc_kwargs", {}))
-        ds.write_nc(path, mode=mode, **kw)
+        if s.get("alias"):
+            w.count("c19:write_alias")
+        (ds.write if s.get("alias") else ds.write_nc)(path, mode=mode, **kw)
     except Exception as e:
         absorb_unknown(w, path)
         if s.get("recovery") and w.props:
@@ -502,7 +504,9 @@ def x_arr_write(w, s):
         if name in fm.vars and (fm.vars[name]["unknown"] or fm.vars[name]["dims"] != list(a.dims)):
             raise Skip("stale spec")
     try:
-        a.write_nc(path, name, mode=mode, **_fmt(w, s))
+        if s.get("alias"):
+            w.count("c19:write_alias")
+        (a.write if s.get("alias") else a.write_nc)(path, name, mode=mode, **_fmt(w, s))
     except Exception as e:
         absorb_unknown(w, path)
         if "C19" in w.props:
